@@ -92,7 +92,7 @@ CLAIMED = {
          "Theorems hold for every grid with distinct knots, every ordinate and second-derivative vector; the numerical solve is certified per run by the exact "
          "residual of the implementation's f2. Tied to the working tree by re-translating the basis functions on every run and by evaluating the real "
          "CubicSpline / LinSpline / AkimaSpline / Table on generated grids (knots, ends, between, outside), including sums of data sets and spline fits.",
-         "Lean kernel + three standard axioms; translator tr_c12.py (cexpr); Eigen QR external; PARTIAL: csg_resample executable and least-squares optimality of Fit not covered.",
+         "Lean kernel + three standard axioms; translator tr_c12.py (cexpr); Eigen QR external; csg_resample executable covered in interpolation mode; fit mode and least-squares optimality of Fit (KKT theorem in C06) not run.",
          "6/C12"),
  "C04": ("Lean 4 proof (induction over frame lists and block lists, order/field arithmetic over Q) about an executable model of the whole csg_stat pipeline "
          "that composes the C01/C02/C03/C13 models + correspondence: every number written by the real csg_stat executable on complete generated inputs is "
